@@ -1,5 +1,5 @@
 // Replays query lines against the REAL rink-core (path dependency on /repo/core).
-// usage: vx-replay-query [--expect <text>] <line> [<line> ...]
+// usage: vx-replay-query [--expect <text>] [--defs <definitions>]... <line> [<line> ...]
 // Each line is evaluated in one context, in order, and rendered in every
 // output form (plain text, span tree, JSON). Prints the replies.
 // exit 1 = a panic was caught (printed), or --expect was given and the last
@@ -14,6 +14,12 @@ fn main() {
         args.drain(0..2);
     }
     let mut ctx = rink_core::simple_context().expect("context");
+    // --defs "<definitions text>": extra user definitions loaded on top of the bundled database
+    while args.len() >= 2 && args[0] == "--defs" {
+        let r = ctx.load_definitions(&args[1]);
+        println!("load_definitions: {:?}", r.map(|_| "ok"));
+        args.drain(0..2);
+    }
     let mut bad = false;
     let mut last = String::new();
     for line in &args {
@@ -36,6 +42,28 @@ fn main() {
                     let dims: Vec<String> = raw.unit.iter().map(|(k, v)| format!("{}:{}", k, v)).collect();
                     text.push_str(&format!("\nRAW {}/{} | {}", n, d, dims.join(",")));
                 }
+            }
+            // unit lists / duration breakdowns: PARTS <numer>/<denom> <unit>; ...
+            fn part(p: &rink_core::output::NumberParts) -> String {
+                match &p.raw_value {
+                    Some(raw) => match &raw.value {
+                        rink_core::types::Numeric::Rational(_) => {
+                            let (n, d) = raw.value.to_rational();
+                            let dims: Vec<String> = raw.unit.iter().map(|(k, v)| format!("{}:{}", k, v)).collect();
+                            format!("{}/{} {}", n, d, dims.join(","))
+                        }
+                        rink_core::types::Numeric::Float(f) => format!("float:{} ?", f),
+                    },
+                    None => "none ?".to_string(),
+                }
+            }
+            if let Ok(rink_core::output::QueryReply::UnitList(l)) = &res {
+                let parts: Vec<String> = l.list.iter().map(part).collect();
+                text.push_str(&format!("\nPARTS {}", parts.join("; ")));
+            }
+            if let Ok(rink_core::output::QueryReply::Duration(d)) = &res {
+                let parts: Vec<String> = [&d.years, &d.weeks, &d.days, &d.hours, &d.minutes, &d.seconds].iter().map(|p| part(p)).collect();
+                text.push_str(&format!("\nPARTS {}", parts.join("; ")));
             }
             // span tree and JSON renderings
             use rink_core::output::fmt::TokenFmt;
